@@ -149,10 +149,16 @@ class C14Property:
                     if kind.startswith("attr changed") and entry.implement_doit and callable_changed and n_pairs < 6:
                         n_pairs += 1
                         try:
-                            fails += corr.with_cap(CAP_S, oracle.check_pair_commute, r, o, kind, pools, rng, ctx, stats)
+                            # both orders (SymPy caches subs/doit by equality: who is asked first matters)
+                            first, second = (r, o) if n_pairs % 2 else (o, r)
+                            fails += corr.with_cap(CAP_S, oracle.check_pair_commute, first, second, kind, pools, rng, ctx, stats)
                         except corr._Timeout:  # noqa: SLF001
                             stats["timeouts"].append("pair: " + str(o)[:120])
             fails += oracle.check_template_globals(entry, pools, rng, ctx)
+            try:
+                fails += corr.with_cap(2 * CAP_S, oracle.numbers_vs_symbols, entry, pools, rng, ctx, stats)
+            except corr._Timeout:  # noqa: SLF001
+                stats["timeouts"].append("numbers vs symbols: " + entry.key)
             if entry.numpy_printable:
                 try:
                     f, n, structural = corr.with_cap(4 * CAP_S, oracle.numpy_code_agrees, entry, pools, rng)
@@ -172,6 +178,13 @@ class C14Property:
             except corr._Timeout:  # noqa: SLF001
                 stats["timeouts"].append(name)
         fails += oracle.complex_sqrt_code_agrees()
+        fails += oracle.complex_sqrt_numbers()
+        try:
+            fails += oracle.decorator_options(entries)
+        except Exception as e:  # noqa: BLE001
+            fails.append({"class": "decorator option not honoured", "what": "constructing/using a run-time class with every decorator option raised",
+                          "error": "".join(traceback.format_exception(e))[-900:],
+                          "python": "tools.corr.C14.harness_classes(); tools.search.C14.decorator_options(entries)"})
         chk.info("oracle", stats)
         chk.info("oracle_excluded_points_met", {"count": len(notes), "examples": notes[:2]})
         return fails
